@@ -6,6 +6,9 @@ var msgLens = []int{0, 1, 31, 32, 33, 55, 56, 57, 63, 64, 65, 119, 120, 128, 300
 
 // Message draws a message with length dense around hash block boundaries.
 func Message(t *rapid.T, label string) []byte {
+	if rapid.IntRange(0, 11).Draw(t, label+"_dict") == 0 {
+		return DictBytes(t, 64, label+"_d") // messages built from the program's own string constants
+	}
 	var n int
 	switch rapid.IntRange(0, 9).Draw(t, label+"_lensel") {
 	case 0:
